@@ -36,6 +36,31 @@ def seeded_cases(ck, n_walk, n_big, start_id):
         ks = sorted({0, p - 1, p // 2} | {rng.randrange(p) for _ in range(12)})
         cid += 1
         cases.append(dict(id=cid, cfg=rng.choice(["big_sz", "big_i64", "big_u32", "big_i32"]), shape=shape, ks=ks))
+    def dig(v):
+        out = []
+        while v: out.append(v & 32767); v >>= 15
+        return out
+    for _ in range(n_big // 2):           # sizes near 2^31 (TLC integers) and near 2^33 .. 2^58 (digit lists): extents below 2^15
+        if rng.random() < 0.4:
+            d = rng.randint(1, 4); target = 2 ** 31 - 1
+            shape = []; rem = target
+            for i in range(d):
+                e = max(1, rem) if i == d - 1 else max(1, min(rem, rng.randint(1, max(1, int(rem ** (1.0 / (d - i))) * 2))))
+                shape.append(e); rem = max(1, rem // e)
+            p = 1
+            for x in shape: p *= x
+            ks = sorted({0, p - 1, p // 2} | {rng.randrange(p) for _ in range(8)})
+            cid += 1
+            cases.append(dict(id=cid, cfg=rng.choice(["big_sz", "big_i64"]), shape=shape, ks=ks))
+        else:
+            d = rng.randint(3, 6); bits = rng.choice([33, 36, 40, 40, 44, 52, 58])
+            per = min(14, max(2, bits // d))
+            shape = [rng.randint(2 ** (per - 1), min(32767, 2 ** (per + 1) - 1)) for _ in range(d)]
+            p = 1
+            for x in shape: p *= x
+            ks = sorted({0, p - 1, p // 2, 2 ** 31, 2 ** 32 + 1} | {rng.randrange(p) for _ in range(8)})
+            cid += 1
+            cases.append(dict(id=cid, cfg=rng.choice(["wide_sz", "wide_i64"]), shape=shape, kds=[dig(k) for k in ks if k < p]))
     return cases
 
 
@@ -71,12 +96,13 @@ def run(tier, seed):
     nontriv = {canon(c["shape"]) for c in cases if len(c["shape"]) >= 2 and sum(1 for x in c["shape"] if x > 1) >= 2}
     ck.nontrivial_count = len(nontriv)
     ck.rule = ("cases = every shape of the model-checked scope (TLC export of MC_Layout's shape set) under every run-time index container kind, "
-               "plus seeded larger shapes (complete walks with products <= 4000; index-math-only samples with products up to 2^30 in size_t/int64/uint32/int32); "
+               "plus seeded larger shapes (complete walks with products <= 4000; index-math-only samples with products up to 2^30 in size_t/int64/uint32/int32, up to 2^31-1 in size_t/int64, and 2^33 .. 2^58 in size_t/int64 with wide values as base-2^15 digit lists "
+               "checked by TraceLayout's multi-digit arithmetic); "
                "non-trivial = distinct shapes with at least two extents > 1 (where stride order matters)")
     ck.exhaustive = True
     ck.extra.update(scope_cases=n_scope, seeded_cases=len(cases) - n_scope, kinds=kinds)
     ck.assumptions += ["compile-time (ct/clipped/tuple) index containers are covered by C09's generated stanzas, not here",
-                       "extents above 2^30 are outside TLC's integer range; see DESIGN.md (Apalache obligation) for the unbounded statement"]
+                       "sizes beyond 2^31 are validated through TraceLayout's base-2^15 digit arithmetic (extents below 2^15 per axis), not through TLC integers"]
     for c in cases[:3]: ck.sample(c)
     return ck.finish()
 
